@@ -562,6 +562,23 @@ def r6_tails(text, notes):
             notes.add('R6', '`%s%s..` lowered to %s(%s, <closure verbatim>)' % (recv, ' '.join(text[m.start():m.start()].split()), helper, recv))
             changed = True
             break
+    # `PREFIX.chain(B).collect::<Vec<_>>()` -> `vf_concat(PREFIX.collect::<Vec<_>>(), B)`
+    again = True
+    while again:
+        again = False
+        mask = mask_text(text)
+        m = re.search(r'\.\s*chain\s*\(', mask)
+        if m:
+            par = m.end() - 1
+            close = match_close(mask, par)
+            m3 = re.match(r'\)\s*\.\s*collect\s*::\s*<\s*Vec\s*<\s*_\s*>\s*>\s*\(\s*\)', mask[close:])
+            if m3:
+                rs = _receiver_start(mask, m.start())
+                prefix = text[rs:m.start()].rstrip()
+                b = text[par + 1:close].strip()
+                text = text[:rs] + 'vf_concat(%s.collect::<Vec<_>>(), %s)' % (prefix, b) + text[close + m3.end():]
+                notes.add('R6', '`..chain(%s).collect::<Vec<_>>()` lowered to vf_concat(<prefix>.collect(), %s)' % (b, b))
+                again = True
     # `E.into_iter().map(C1).take_while(C2).collect()`
     mask = mask_text(text)
     m = re.search(r'\.\s*into_iter\s*\(\s*\)\s*\.\s*map\s*\(', mask)
@@ -620,7 +637,7 @@ def r6_tails(text, notes):
 
 def eta_expand_paths(text, notes):
     """R6 (part): `.map(ToOwned::to_owned)` -> `.map(|x| x.to_owned())`"""
-    new = re.sub(r'\.map\(\s*ToOwned::to_owned\s*\)', '.map(|x__| x__.to_owned())', text)
+    new = re.sub(r'\.map\(\s*ToOwned::to_owned\s*\)', '.map(|x__| { x__.to_owned() })', text)
     if new != text:
         notes.add('R6', 'eta-expanded ToOwned::to_owned')
     return new
